@@ -21,12 +21,15 @@ func Verif_c14_walk() {
 	got := map[string]int{}
 	seen := map[Node]bool{}
 	nonNil, nils, depth, maxDepth := 0, 0, 0, 0
-	var order []Node
+	var order, stack []Node
 	Walk(f, func(nd Node) bool {
 		if nd == nil {
 			nils++
 			depth--
 			verifAssert(depth >= 0, "more f(nil) calls than nodes entered")
+			if len(stack) > 0 {
+				stack = stack[:len(stack)-1]
+			}
 			return true
 		}
 		nonNil++
@@ -34,10 +37,13 @@ func Verif_c14_walk() {
 		if depth > maxDepth {
 			maxDepth = depth
 		}
-		if _, isCom := nd.(*Comment); !isCom {
+		if c, isCom := nd.(*Comment); !isCom {
 			verifAssert(!seen[nd], "Walk visited a node twice")
 			seen[nd] = true
+		} else {
+			verifAssert(len(stack) > 0 && verifOwnsComment(stack[len(stack)-1], c), "Walk visited a comment outside the node that holds it")
 		}
+		stack = append(stack, nd)
 		got[verifTypeOf(nd)]++
 		order = append(order, nd)
 		return true
@@ -103,4 +109,45 @@ var verifC14Prefixes = [...]string{
 	"echo ${a:-b} ${a:1:2} ${a/b/c} ${!a} ${#a} ${a[1]} ${a@Q} $((1+2)) $(a) `b` <(c) \"d $e\" 'f' $'g' ?(h) a{b,c}\n",
 	"a | b && c || d & e |& f; ! g; { h; }; ( i )\n",
 	"echo ${a:h:t} ${(f)b} ${${c}} $=d $~e\n", // zsh only
+}
+
+// verifOwnsComment: c is one of the comments held directly by p.
+func verifOwnsComment(p Node, c *Comment) bool {
+	var lists [][]Comment
+	switch p := p.(type) {
+	case *File:
+		lists = [][]Comment{p.Last}
+	case *Stmt:
+		lists = [][]Comment{p.Comments}
+	case *Subshell:
+		lists = [][]Comment{p.Last}
+	case *Block:
+		lists = [][]Comment{p.Last}
+	case *IfClause:
+		lists = [][]Comment{p.CondLast, p.ThenLast, p.Last}
+	case *WhileClause:
+		lists = [][]Comment{p.CondLast, p.DoLast}
+	case *ForClause:
+		lists = [][]Comment{p.DoLast}
+	case *CmdSubst:
+		lists = [][]Comment{p.Last}
+	case *ProcSubst:
+		lists = [][]Comment{p.Last}
+	case *CaseClause:
+		lists = [][]Comment{p.Last}
+	case *CaseItem:
+		lists = [][]Comment{p.Comments, p.Last}
+	case *ArrayExpr:
+		lists = [][]Comment{p.Last}
+	case *ArrayElem:
+		lists = [][]Comment{p.Comments}
+	}
+	for _, l := range lists {
+		for i := range l {
+			if l[i].Hash == c.Hash && l[i].Text == c.Text {
+				return true
+			}
+		}
+	}
+	return false
 }
